@@ -16,7 +16,7 @@ TracksOf(str) == {str[i].t : i \in Idx(str)}
 MaxSeen(str) == LET S == {str[i].fd : i \in {j \in Idx(str) : str[j].fd >= 0}} IN IF S = {} THEN -1 ELSE MaxOf(S)
 Counted(str, q, t, maxd) == {i \in Idx(str) : str[i].q = q /\ str[i].t = t /\ str[i].fd >= 0 /\ str[i].fd <= maxd}
 Claims(str, maxd, minv) == {<<q, t>> \in Queries(str) \X TracksOf(str) : Cardinality(Counted(str, q, t, maxd)) >= minv}
-Weight(str, q, t, maxd) == SumSet([i \in Idx(str) |-> MaxSeen(str) - str[i].fd], Counted(str, q, t, maxd))
+Weight(str, q, t, maxd) == LET m == MaxSeen(str) IN SumSet([i \in Idx(str) |-> m - str[i].fd], Counted(str, q, t, maxd))
 
 (* ---- top-N: per query, eligible tracks by decreasing weight, cut at N (as a set of admissible lists) *)
 TopNOK(str, maxd, minv, N, q, lst) ==
@@ -38,6 +38,50 @@ BestClaim(str, maxd, minv, q) ==  \* q's own heaviest claim
   LET ts == {t \in TracksOf(str) : <<q, t>> \in Claims(str, maxd, minv)} IN
   CHOOSE t \in ts : \A t2 \in ts : Weight(str, q, t2, maxd) <= Weight(str, q, t, maxd)
 HasClaim(str, maxd, minv, q) == \E t \in TracksOf(str) : <<q, t>> \in Claims(str, maxd, minv)
+
+(* ---- top-N and best-fit as functions of the bag (property C17).  Every operator above and below quantifies over
+   the index set of the stream and never looks at positions, so a permuted stream has the same Claims / Weight and
+   hence the same answer: order independence holds by construction.  On weight-tie-free streams (TieFree) the
+   answers below are the only ones the property admits.
+   The operators with suffix C work on a context x = Ctx(str, maxd, minv): the claims and the weight table of the
+   stream, evaluated once (TLCEval forces TLC to tabulate the functions instead of re-evaluating Weight).       *)
+Ctx(str, maxd, minv) ==
+  LET Q == Queries(str)
+      T == TracksOf(str)
+  IN [Q |-> Q, T |-> T, cl |-> Claims(str, maxd, minv),
+      w |-> TLCEval([q \in Q |-> TLCEval([t \in T |-> Weight(str, q, t, maxd)])])]
+EligibleC(x, q) == {t \in x.T : <<q, t>> \in x.cl}
+RECURSIVE ByWeightC(_, _, _)
+ByWeightC(x, q, S) ==               \* the tracks of S by decreasing weight for query q
+  IF S = {} THEN <<>>
+  ELSE LET t == CHOOSE a \in S : \A y \in S : x.w[q][y] <= x.w[q][a] IN <<t>> \o ByWeightC(x, q, S \ {t})
+VPrefix(s, n) == IF Len(s) > n THEN SubSeq(s, 1, n) ELSE s
+OwnerC(x, t) == LET cl == {q \in x.Q : <<q, t>> \in x.cl} IN CHOOSE q \in cl : \A q2 \in cl : x.w[q2][t] <= x.w[q][t]
+(* top-N: the N heaviest eligible tracks of q, heaviest first *)
+TopNC(x, N, q) == VPrefix(ByWeightC(x, q, EligibleC(x, q)), N)
+(* best fit: every claim of q in weight order; a track q does not own is replaced by q itself *)
+BestFitC(x, q) == LET l == ByWeightC(x, q, EligibleC(x, q)) IN [i \in DOMAIN l |-> IF OwnerC(x, l[i]) = q THEN l[i] ELSE q]
+TieFreeC(x) == \A c1, c2 \in x.cl : (c1 # c2 /\ (c1[1] = c2[1] \/ c1[2] = c2[2])) => x.w[c1[1]][c1[2]] # x.w[c2[1]][c2[2]]
+TopN(str, maxd, minv, N, q) == TopNC(Ctx(str, maxd, minv), N, q)
+BestFit(str, maxd, minv, q) == BestFitC(Ctx(str, maxd, minv), q)
+VRange(s) == {s[i] : i \in DOMAIN s}
+(* facts: the functional answers satisfy the declarative statements of C17 *)
+TopNOKC(x, N, q, lst) ==            \* TopNOK on a context
+  LET el == EligibleC(x, q) IN
+  /\ Len(lst) = (IF Cardinality(el) < N THEN Cardinality(el) ELSE N)
+  /\ \A i \in DOMAIN lst : lst[i] \in el
+  /\ \A i, j \in DOMAIN lst : i < j => lst[i] # lst[j] /\ x.w[q][lst[i]] >= x.w[q][lst[j]]
+  /\ \A t \in el : (\A i \in DOMAIN lst : lst[i] # t) => \A i \in DOMAIN lst : x.w[q][lst[i]] >= x.w[q][t]
+TopNFactsC(x, N) == \A q \in x.Q : TopNOKC(x, N, q, TopNC(x, N, q))
+BestFitFactsC(x) ==
+  /\ \A t \in x.T : Cardinality({q \in x.Q : t \in VRange(BestFitC(x, q))}) <= 1         \* a track is awarded at most once
+  /\ \A q \in x.Q : \A t \in VRange(BestFitC(x, q)) \ {q} :                            \* ... to its heaviest claimant
+        /\ <<q, t>> \in x.cl
+        /\ \A q2 \in x.Q : <<q2, t>> \in x.cl => x.w[q2][t] <= x.w[q][t]
+  /\ \A cc \in x.cl : \E q \in x.Q : cc[2] \in VRange(BestFitC(x, q))                   \* every claimed track is awarded
+(* a track claimed by >= 2 queries; a query with more eligible tracks than N *)
+ContestedC(x) == \E c1, c2 \in x.cl : c1[1] # c2[1] /\ c1[2] = c2[2]
+CutAtC(x, N) == \E q \in x.Q : Cardinality(EligibleC(x, q)) > N
 
 (* ---- VisualSORT cascade, operational (as coded): the query's best claim decides *)
 VisualOp(str, minv, thr) ==
